@@ -21,7 +21,8 @@ func init() {
 		Rule:     "trial = (command form, generated valid input) executed under the baseline schedule and 8 (quick) / 24 (thorough) perturbed configurations (scheduling strategy x --threads x NumCPU x map iteration order x read chunking); non-trivial = at least one perturbed run reached a different full operation trace than the baseline AND (a record arrived out of input order at some stage, or a select had several ready cases, or a map order was permuted); distinct = distinct (input, options)",
 		Gen:      genC12,
 		Check:    checkC12,
-		Required: []string{"out_of_order_arrival", "select_multi_ready", "map_order", "sender_blocked_on_full_buffer"},
+		Required: []string{},
+		Expected: []string{"out_of_order_arrival", "select_multi_ready", "map_order", "sender_blocked_on_full_buffer"},
 	})
 }
 
